@@ -562,6 +562,9 @@ def judge(path):
     ds = json.load(open(path))
     out = []
     for d in ds:
+        if isinstance(d, dict) and "probe" in d:      # a recorded directed probe of the seeded draw: run the probes again
+            out += [f for f in probe_draw() if f["case"].get("probe") == d["probe"]][:1]
+            continue
         clauses, res = judge_case(d)
         if clauses:
             m = minimise(d)
